@@ -285,3 +285,13 @@ package panos
 //vc:  assign after "ab.transferNeededObjects(vsysPath)" panTransfer = callresult
 //vc:  assign after "ab.removeUnneededObjects(vsysPath)" panRemove = callresult
 //vc:  ensures[C03,C08] @objectsFirstThenRulesThenRemovals len(result) == len(panTransfer) + len(panRuleCmds) + len(panRemove) && (forall k int :: { result[k] } 0 <= k && k < len(panTransfer) ==> result[k] == panTransfer[k]) && (forall k int :: { panRuleCmds[k] } 0 <= k && k < len(panRuleCmds) ==> result[len(panTransfer) + k] == panRuleCmds[k]) && (forall k int :: { panRemove[k] } 0 <= k && k < len(panRemove) ==> result[len(panTransfer) + len(panRuleCmds) + k] == panRemove[k])
+
+// markServices: a service-group of the device that has the name of a Netspoc
+// group is kept as it is only if its member list equals the Netspoc list; the
+// comparison is called with the Netspoc members first, so that members are
+// matched by name (with the device members first servicesEq would accept a
+// member of another name with the same definition - right for rules, whose
+// service names are rewritten afterwards, wrong for groups, whose members are
+// not) (structural guard on the argument order).
+//vc:func (*rulesPair).markServices
+//vc:  assert[C03] at "ab.servicesEq(" @groupMembersComparedByName arg1 == g.Members && arg2 == sA.Members
